@@ -193,6 +193,8 @@ class Check(PropertyCheck):
                 if ln.startswith("disp "):
                     hist.append(ln.split()[1:])
                     if rng.random() < 0.3:
+                        if rng.random() < 0.4:
+                            lines.append("stamp")      # the caller noted makespan / status in the live schedule's metadata (a dict of its own)
                         lines.append("bars")
             lines.append("bars")
             lines.append("q makespan")
